@@ -1,32 +1,152 @@
 /-
-  Kanal.Lemmas.WF — structural well-formedness of the atomic channel's state,
-  inductive over every step (DESIGN §3.4: ChanInv, ListedInv, CountInv at the atomic level).
+  Kanal.Lemmas.WF — structural well-formedness of the channel state, inductive over
+  every step of the model (hand-off windows included): the live-handle borrow rule,
+  "a half-closed channel has no waiters", and what being listed means for a waiter
+  (ListedInv of DESIGN §3.4).
 -/
-import Kanal.Lemmas.ChanInv
+import Kanal.Lemmas.StepChan
 import Kanal.Lemmas.Sigs
-import Kanal.Lemmas.Counts
 
 namespace Kanal
 open Chan State
 
-/-- What being in the wait list means for a waiter. -/
-structure Listed (c : Chan) (g : Sig) : Prop where
-  alive   : g.alive = true
-  pending : g.st = .pending
-  role    : g.role = (if c.recvBlocking then .recv else .send)
-  sendSlot : g.role = .send → g.slot.isSome = true
-  recvSlot : g.role = .recv → g.slot = none
-  fut     : g.kind = .async → g.fut = .waiting ∧ g.waker.isSome = true
+/-- Every alive waiter borrows a handle of its side. -/
+def Borrow (s : State) : Prop :=
+  ∀ (i : Nat) (g : Sig), s.sigs[i]? = some g → g.alive = true →
+    (g.role = .send → s.liveS ≠ 0) ∧ (g.role = .recv → s.liveR ≠ 0)
 
-structure WF (s : State) : Prop where
-  chan   : s.chan.Inv
-  counts : CountInv s
-  listed : ∀ i ∈ s.chan.waitList, ∃ g, s.sigs[i]? = some g ∧ Listed s.chan g
-  half   : (s.chan.sendCount = 0 ∨ s.chan.recvCount = 0) → s.chan.waitList = []
-  borrow : ∀ (i : Nat) (g : Sig), s.sigs[i]? = some g → g.alive = true →
-             (g.role = .send → s.liveS ≠ 0) ∧ (g.role = .recv → s.liveR ≠ 0)
+theorem aliveSigs_zero {s : State} {r : Role} (h : s.aliveSigs r = 0) (i : Nat) (g : Sig)
+    (hg : s.sigs[i]? = some g) (ha : g.alive = true) : g.role ≠ r := by
+  unfold aliveSigs at h
+  intro hr
+  have hm : g ∈ s.sigs := List.mem_of_getElem? hg
+  have : g ∈ s.sigs.filter (fun g => g.alive && g.role == r) := by
+    simp [List.mem_filter, hm, ha, hr]
+  rw [List.length_eq_zero_iff] at h
+  rw [h] at this; cases this
 
-theorem wf_init (cap) : WF (State.init cap) := by
-  refine ⟨inv_new cap, countInv_init cap, ?_, ?_, ?_⟩ <;> simp [State.init, Chan.new]
+/-- Open every branch of a goal about the new waiter table. -/
+macro "sig_leaves" : tactic =>
+  `(tactic| (
+    intro j g hg ha
+    simp [deliverTo_get, claimFrom_get, takeFrom_get, finalize_get, terminateList_get,
+          foldl_takeFrom_get, newSig_get] at hg
+    (repeat' (split at hg))
+    all_goals (try simp at hg)))
+
+/-- Re-arming keeps who the waiter is. -/
+theorem rearm_some {v : Variant} {g g' : Sig} (h : rearm v g = some g') :
+    g'.role = g.role ∧ g'.kind = g.kind ∧ g'.alive = g.alive ∧ g'.claimed = g.claimed ∧
+    g'.isStream = g.isStream ∧ g'.streamEnded = g.streamEnded ∧ g'.opt = g.opt ∧
+    (g.fut ≠ .done → g' = g) ∧ (g.fut = .done → g'.fut = .zero ∧ g.isStream = true) := by
+  unfold rearm at h
+  split at h
+  · split at h
+    · cases h; split <;> simp_all
+    · cases h
+  · cases h; simp_all
+
+theorem sendStep_borrow (s : State) (m o reg) (h : Borrow s) (hl : s.liveS ≠ 0)
+    (hreg : ∀ g, reg = some g → g.role = .send) : Borrow (sendStep s m o reg).1 := by
+  unfold sendStep
+  simp only
+  split
+  all_goals (try split)
+  all_goals intro j g hg ha
+  all_goals simp [deliverTo_get] at hg
+  all_goals (try split at hg)
+  all_goals simp_all [Borrow]
+  all_goals grind
+
+theorem recvStep_borrow (s : State) (t e) (h : Borrow s) : Borrow (recvStep s t e).1 := by
+  unfold recvStep
+  split
+  all_goals (try split)
+  all_goals intro j g hg ha
+  all_goals simp [claimFrom_get, takeFrom_get] at hg
+  all_goals (try split at hg)
+  all_goals simp_all [Borrow]
+  all_goals grind
+
+theorem step_borrow {v s l p} (h : Borrow s) (e : step v s l = some p) : Borrow p.1 := by
+  cases l <;> simp only [step] at e
+  case send m kind opt => step_leaves e; exact sendStep_borrow _ _ _ _ h (by grind) (by simp)
+  case trySend m opt rt =>
+    have := sendStep_borrow s m opt none h
+    step_leaves e <;> (try rename_i heq) <;> (try rw [heq] at this) <;> apply this <;> grind
+  case recv kind ex =>
+    have := recvStep_borrow s (kind == .timed) ex h
+    step_leaves e
+    · intro j g hg ha
+      simp [append_single_get] at hg
+      split at hg
+      · cases hg; simp; have := (recvStep_quiet s (kind == .timed) ex).2.2.1; grind
+      · have := this j g hg ha; simpa using this
+    · exact this
+  case tryRecv rt => step_leaves e; exact recvStep_borrow s false false h
+  case dropHandle side =>
+    cases side <;> simp only at e <;> step_leaves e
+    all_goals intro j g hg ha
+    all_goals simp [terminateList_get] at hg
+    all_goals (try split at hg)
+    all_goals first
+      | (obtain ⟨g0, hg0, rfl⟩ := Option.map_eq_some_iff.mp hg
+         simp at ha ⊢
+         have hb := h j g0 hg0 ha
+         have hz := fun hh => aliveSigs_zero (r := .send) hh j g0 hg0 ha
+         have hz2 := fun hh => aliveSigs_zero (r := .recv) hh j g0 hg0 ha
+         constructor <;> intro hr <;> simp_all <;> omega)
+      | (simp at ha ⊢
+         have hb := h j g hg ha
+         have hz := fun hh => aliveSigs_zero (r := .send) hh j g hg ha
+         have hz2 := fun hh => aliveSigs_zero (r := .recv) hh j g hg ha
+         constructor <;> intro hr <;> simp_all <;> omega)
+  case clone side =>
+    cases side <;> simp only at e <;> step_leaves e <;> intro j g hg ha <;> have := h j g hg ha <;> simp_all
+  case close =>
+    step_leaves e
+    · exact h
+    · intro j g hg ha
+      simp [terminateList_get] at hg
+      split at hg
+      · obtain ⟨g0, hg0, rfl⟩ := Option.map_eq_some_iff.mp hg
+        simpa using h j g0 hg0 ha
+      · simpa using h j g hg ha
+  case drain =>
+    step_leaves e
+    · exact h
+    · intro j g hg ha
+      simp [foldl_takeFrom_get] at hg
+      split at hg
+      · obtain ⟨g0, hg0, rfl⟩ := Option.map_eq_some_iff.mp hg
+        simpa using h j g0 hg0 ha
+      · simpa using h j g hg ha
+  case pollRecv f w =>
+    have hr := recvStep_borrow s false false h
+    obtain ⟨-, hq1, hq2, -⟩ := recvStep_quiet s false false
+    step_leaves e
+    all_goals first
+      | exact h
+      | (have hre := rearm_some (by assumption)
+         have hb0 := h f _ (by assumption)
+         intro j g hg ha
+         simp [append_single_get] at hg
+         (repeat' (split at hg))
+         all_goals (try simp at hg)
+         all_goals first
+           | (have hb := h j g hg ha; simp_all; done)
+           | (have hb := hr j g hg ha; simp_all; done)
+           | (obtain ⟨-, rfl⟩ := hg; simp at ha ⊢; simp_all; done)
+           | (obtain ⟨-, rfl⟩ := hg; simp at ha ⊢; split at ha <;> simp_all; done))
+  case convert side => cases side <;> simp only at e <;> step_leaves e <;> exact h
+  case isDisconnected side => cases side <;> simp only at e <;> step_leaves e <;> exact h
+  all_goals step_leaves e
+  all_goals first
+    | exact h
+    | (intro j g hg ha
+       simp [append_single_get, finalize_get, deliverTo_get, claimFrom_get, takeFrom_get] at hg
+       (repeat' (split at hg))
+       all_goals (try simp at hg)
+       all_goals (simp_all [Borrow]; grind))
 
 end Kanal
